@@ -166,6 +166,9 @@ package table
 //@   modifies nothing
 //@   ensures cAddr(path1, path2) > 0 ==> result == path2
 //@   ensures cAddr(path1, path2) <= 0 ==> result != path2
+// ... and two routes that both have no neighbour address are not told apart by this step (it must not prefer
+// whichever is asked about first: the order of arrival would decide)
+//@   ensures cAddr(path1, path2) == 0 ==> result == nil
 
 // ---- the closure handed to sort.Search by insertSort: the chain equals the statement's order ----
 //@ func (*destination).insertSort$1
